@@ -14,6 +14,7 @@ PROOF_TARGETS = ['coq/C17/Proofs.vo']
 PROPS_FILE = 'coq/Props/C17.v'
 RUN_MODULE = 'QCE.C17.Run'
 COQ_HEADER = 'From Gen Require Import Layouts.\nFrom QCE Require Import C16.Spec C16.Model C17.Model.'
+REPEAT_REVERSED = True     # every case is evaluated twice per run, the second time in reversed order in the same processes
 IMPL = 'harness/impl/c17_impl.py'
 IMPL_KW = {'shards': 12}
 SHARD = 40
